@@ -130,8 +130,53 @@ func claimedOnChain(x *scn.Exec, sm *swap.SwapStateMachine) bool {
 	return false
 }
 
-func oracleC06(x *scn.Exec) []mc.Violation {
+// coopDisclosures reports every coop_close of A's swap sent at or after log
+// position fromSeq while the claim payment was in flight or had succeeded.
+func coopDisclosures(x *scn.Exec, id, h string, fromSeq int) []mc.Violation {
 	var out []mc.Violation
+	for _, o := range x.W.Log[fromSeq:] {
+		if o.Kind != "send" || o.Node != scn.IDA || o.MsgType != mtCoopClose || o.SwapID != id {
+			continue
+		}
+		st := "none"
+		if h != "" {
+			st = snapshotState(o.Extra, h)
+		}
+		if st != "inflight" && st != "succeeded" {
+			continue
+		}
+		prev, cause := "?", "?"
+		for i := o.Seq - 1; i >= 0; i-- {
+			q := x.W.Log[i]
+			if q.Kind == "store" && q.Node == scn.IDA && strings.HasSuffix(q.State, "SendPrivkey") {
+				if r := decodeRecord(q.Payload); r != nil {
+					prev = stateSuffix(string(r.Previous))
+					le := r.Data.LastErrString + " " + r.Data.CancelMessage
+					switch {
+					case strings.Contains(le, "could not pay invoice"):
+						cause = "payment_errors"
+					case strings.Contains(le, "deadline") || strings.Contains(le, "exceeded") || strings.Contains(le, "csv") || strings.Contains(le, "below swap starting"):
+						cause = "window_closed"
+					case prev == "ClaimSwap":
+						cause = "negotiation_timeout"
+					case prev == "ValidateTxAndPayClaimInvoice" || prev == "AwaitTxConfirmation":
+						// the Bitcoin window check of the pay loop fails with an empty error text
+						cause = "window_closed"
+					default:
+						cause = "other"
+					}
+				}
+				break
+			}
+		}
+		out = append(out, mc.Violation{Property: "C06",
+			Key:    fmt.Sprintf("coop_close_while_%s:from=%s:cause=%s", st, prev, cause),
+			Detail: fmt.Sprintf("role=%s backend=%s: coop_close (discloses the taker key) sent at log seq %d while the claim payment %s is %s; last payment observation: %s", x.Cfg.ARole(), backend(x), o.Seq, h[:8], st, lastPayResult(x, scn.IDA, o.Seq))})
+	}
+	return out
+}
+
+func oracleC06(x *scn.Exec) []mc.Violation {
 	if !x.Cfg.ATaker() {
 		return nil
 	}
@@ -141,48 +186,9 @@ func oracleC06(x *scn.Exec) []mc.Violation {
 	}
 	id := final.SwapId.String()
 	h := claimHash(final)
-	disclosed := false
-	for _, o := range x.W.Log {
-		if o.Kind != "send" || o.Node != scn.IDA || o.MsgType != mtCoopClose || o.SwapID != id {
-			continue
-		}
-		st := "none"
-		if h != "" {
-			st = snapshotState(o.Extra, h)
-		}
-		if st == "inflight" || st == "succeeded" {
-			disclosed = true
-			prev, cause := "?", "?"
-			for i := o.Seq - 1; i >= 0; i-- {
-				q := x.W.Log[i]
-				if q.Kind == "store" && q.Node == scn.IDA && strings.HasSuffix(q.State, "SendPrivkey") {
-					if r := decodeRecord(q.Payload); r != nil {
-						prev = stateSuffix(string(r.Previous))
-						le := r.Data.LastErrString + " " + r.Data.CancelMessage
-						switch {
-						case strings.Contains(le, "could not pay invoice"):
-							cause = "payment_errors"
-						case strings.Contains(le, "deadline") || strings.Contains(le, "exceeded") || strings.Contains(le, "csv") || strings.Contains(le, "below swap starting"):
-							cause = "window_closed"
-						case prev == "ClaimSwap":
-							cause = "negotiation_timeout"
-						case prev == "ValidateTxAndPayClaimInvoice" || prev == "AwaitTxConfirmation":
-							// the Bitcoin window check of the pay loop fails with an empty error text
-							cause = "window_closed"
-						default:
-							cause = "other"
-						}
-					}
-					break
-				}
-			}
-			out = append(out, mc.Violation{Property: "C06",
-				Key:    fmt.Sprintf("coop_close_while_%s:from=%s:cause=%s", st, prev, cause),
-				Detail: fmt.Sprintf("role=%s backend=%s: coop_close (discloses the taker key) sent at log seq %d while the claim payment %s is %s; last payment observation: %s", x.Cfg.ARole(), backend(x), o.Seq, h[:8], st, lastPayResult(x, scn.IDA, o.Seq))})
-		}
-	}
+	out := coopDisclosures(x, id, h, 0)
 	// clause 2: once paid, the node keeps trying until the output is claimed
-	if !disclosed && h != "" && x.W.LN[scn.IDA].PayStateOf(h) == world.PaySucceeded {
+	if len(out) == 0 && h != "" && x.W.LN[scn.IDA].PayStateOf(h) == world.PaySucceeded {
 		cur := x.SwapOf(x.A)
 		if cur.IsFinished() {
 			if cur.Current != swap.State_ClaimedPreimage {
@@ -191,30 +197,11 @@ func oracleC06(x *scn.Exec) []mc.Violation {
 					Detail: fmt.Sprintf("role=%s backend=%s: claim payment succeeded but the swap finished in %s", x.Cfg.ARole(), backend(x), cur.Current)})
 			}
 		} else if !claimedOnChain(x, cur) {
-			nSends := len(x.W.Log)
+			n0 := len(x.W.Log)
 			end := drainTaker(x)
 			after := x.SwapOf(x.A)
-			leaked := false
-			for _, o := range x.W.Log[nSends:] {
-				if o.Kind == "send" && o.Node == scn.IDA && o.MsgType == mtCoopClose {
-					leaked = true
-				}
-			}
-			if leaked {
-				from := stateSuffix(string(cur.Current))
-				if from == "SendPrivkey" || from == "SendCoopClose" {
-					// the decision was taken earlier; name the state it was taken in
-					for _, q := range x.W.Log {
-						if q.Kind == "store" && q.Node == scn.IDA && strings.HasSuffix(q.State, "SendPrivkey") {
-							if r := decodeRecord(q.Payload); r != nil {
-								from = stateSuffix(string(r.Previous))
-							}
-							break
-						}
-					}
-				}
-				out = append(out, mc.Violation{Property: "C06", Key: fmt.Sprintf("coop_close_while_succeeded:from=%s:cause=continuation", from),
-					Detail: fmt.Sprintf("role=%s backend=%s: payment succeeded in state %s; the fair continuation (time, restart) sent coop_close", x.Cfg.ARole(), backend(x), cur.Current)})
+			if d := coopDisclosures(x, id, h, n0); len(d) > 0 {
+				out = append(out, d...)
 			} else if end != string(swap.State_ClaimedPreimage) && !claimedOnChain(x, after) {
 				out = append(out, mc.Violation{Property: "C06",
 					Key:    fmt.Sprintf("paid_but_not_claimed:start=%s:end=%s", stateSuffix(string(cur.Current)), stateSuffix(end)),
